@@ -1,6 +1,7 @@
 (* C09: closure of the fault-reachable set, the pump never dies, every fault-reachable state heals. *)
 From Coq Require Import List Bool ZArith Lia.
 Require Import GV.Gen.LifecycleRules GV.Model.Lifecycle GV.Proofs.LifecycleP GV.Model.Heal.
+Require GV.Model.Request.
 Import ListNotations.
 
 Local Transparent step handle reset.
@@ -13,7 +14,7 @@ Proof. vm_compute. reflexivity. Qed.
 
 Definition all_heal_b (k : costs) (bound : Z) : bool :=
   forallb (fun s => match heal k FUELH s 0 with Some t => (t <=? bound)%Z | None => false end) reach9.
-Lemma all_heal_idle : all_heal_b idle_costs 400 = true.
+Lemma all_heal_idle : all_heal_b idle_costs 420 = true.
 Proof. vm_compute. reflexivity. Qed.
 Definition alive (s : mst) : bool := negb (pc_eqb (ppc s) PDead).
 Definition pump_alive_b : bool := forallb alive reach.
@@ -50,7 +51,7 @@ Proof.
 Qed.
 
 Theorem heals_after_any_faults ls s : Forall (fun l => fault_label l = true) ls -> runS (entered true) ls = Some s ->
-  exists t, heal idle_costs FUELH s 0 = Some t /\ (t <= 400)%Z.
+  exists t, heal idle_costs FUELH s 0 = Some t /\ (t <= 420)%Z.
 Proof.
   intros F R. pose proof (reach9_complete ls s F R) as Hin. pose proof all_heal_idle as A. unfold all_heal_b in A. rewrite forallb_forall in A.
   specialize (A s Hin). destruct (heal idle_costs FUELH s 0) as [t|]; [|discriminate]. exists t. split; [reflexivity|]. apply Z.leb_le. exact A.
@@ -67,3 +68,10 @@ Proof.
   intros R H. pose proof (inv_all reported unreachable_reported_all c ls s R) as I. unfold reported in I. rewrite H in I. cbn [sstate_eqb negb orb] in I.
   destruct (stepS s (Ext RUNNING_PING_NO_RESPONSE)) as [s'|]; [|discriminate]. exists s'. split; [reflexivity|]. intros E. rewrite E in I. discriminate.
 Qed.
+
+(* the heal schedule's cost of one request exchange covers C06's proved bound for a simple call with the idle configuration's ten
+   attempts (timeout 4 s, pause 2 s, scheduling slot 0.1 s; microseconds), and of a ping (one attempt) after the ping period *)
+Lemma request_cost_covers_c06_bound :
+  (Request.bound (Request.Build_cfg 4000000 2000000 100000 5) (Request.mkc 0 Request.Simple 10 false false) <= k_request idle_costs * 1000000)%Z /\
+  (60000000 + Request.bound (Request.Build_cfg 4000000 2000000 100000 5) (Request.mkc 0 Request.Simple 1 false false) <= k_ping idle_costs * 1000000)%Z.
+Proof. vm_compute. split; discriminate. Qed.
